@@ -20,6 +20,7 @@ type boundedResult struct {
 	Fails  []string `json:"failures,omitempty"`
 	WallS  float64  `json:"wall_s"`
 	Status string   `json:"status"`
+	Cats   map[string][]string `json:"failures_by_kind,omitempty"`
 }
 
 func runBounded(name string) boundedResult {
@@ -65,8 +66,22 @@ func runBounded(name string) boundedResult {
 	for _, ln := range strings.Split(string(out), "\n") {
 		ln = strings.TrimSpace(ln)
 		if strings.HasPrefix(ln, "BOUNDED-FAIL ") {
+			msg := ln[13:]
+			// optional category: "BOUNDED-FAIL [kind] text" - each kind is reported as its own obligation
+			cat := ""
+			if strings.HasPrefix(msg, "[") {
+				if j := strings.Index(msg, "]"); j > 0 {
+					cat = msg[1:j]
+				}
+			}
+			if res.Cats == nil {
+				res.Cats = map[string][]string{}
+			}
+			if len(res.Cats[cat]) < 5 {
+				res.Cats[cat] = append(res.Cats[cat], msg)
+			}
 			if len(res.Fails) < 20 {
-				res.Fails = append(res.Fails, ln[13:])
+				res.Fails = append(res.Fails, msg)
 			}
 		}
 		if strings.HasPrefix(ln, "BOUNDED-DONE ") {
